@@ -69,7 +69,13 @@ func runC20(c *Ctx) {
 		// R1: bounds of every index into the table
 		n := 0
 		c.BoundsFns[fn.String()] = true
-		for _, s := range w.BoundsObligations([]*ssa.Function{fn}, nil) {
+		var withHelpers []*ssa.Function
+		for _, tf := range w.Tree(fn) {
+			if tf == fn || (w.transparent(tf) && tf.Parent() == nil) {
+				withHelpers = append(withHelpers, tf)
+			}
+		}
+		for _, s := range w.BoundsObligations(withHelpers, nil) {
 			if s.Kind != "index" {
 				continue
 			}
@@ -103,7 +109,7 @@ func runC20(c *Ctx) {
 				c.Check(okNil, "R1.index", name+"|returns nil", w.Pos(r.Pos()), "nil", "an out-of-range code is not answered with nil")
 			}
 		}
-		for _, call := range callsIn(fn) {
+		for _, call := range w.callsInDeep(fn) {
 			nm := calleeName(call)
 			if strings.HasPrefix(nm, "(*sync.Cond).") || strings.HasSuffix(nm, "sync.Locker).Lock") {
 				if _, isDefer := call.(*ssa.Defer); isDefer {
@@ -116,7 +122,7 @@ func runC20(c *Ctx) {
 	// R2
 	checkCondUse(c, m, waitFn, "(*sync.Cond).Wait", true)
 	checkCondUse(c, m, bcastFn, "(*sync.Cond).Broadcast", false)
-	for _, call := range callsIn(bcastFn) {
+	for _, call := range w.callsInDeep(bcastFn) {
 		if calleeName(call) == "(*sync.Cond).Signal" {
 			c.Bad("R2.cond", bcastFn.Name()+"|Broadcast not Signal", w.Pos(call.Pos()), "Cond.Signal wakes a single waiter: the other clients waiting for the same code stay blocked")
 		}
@@ -323,7 +329,8 @@ func findStoreOf(w *World, v ssa.Value, want string) bool {
 func checkCondUse(c *Ctx, m *shimModel, fn *ssa.Function, method string, needLock bool) {
 	w := c.w
 	n := 0
-	for _, call := range callsIn(fn) {
+	w.Focus(fn)
+	for _, call := range w.callsInDeep(fn) {
 		if calleeName(call) != method {
 			continue
 		}
@@ -336,19 +343,19 @@ func checkCondUse(c *Ctx, m *shimModel, fn *ssa.Function, method string, needLoc
 		c.Check(recv == want, "R2.cond", fn.Name()+"|"+shortName(method)+" on the entry of the given code", w.Pos(call.Pos()), want, "the condition variable used is not the table entry of the method's code: "+recv)
 		if needLock {
 			okLock := false
-			for _, lc := range callsIn(fn) {
+			for _, lc := range w.callsInDeep(fn) {
 				if _, isDefer := lc.(*ssa.Defer); isDefer {
 					continue
 				}
 				if strings.HasSuffix(calleeName(lc), "sync.Locker).Lock") && w.Expr(lc.Common().Value) == want+".L" {
-					if li, ok := lc.(ssa.Instruction); ok && InstrDominates(li, call) {
+					if li, ok := lc.(ssa.Instruction); ok && li.Parent() == call.Parent() && InstrDominates(li, call) {
 						// not released before the wait
 						released := false
-						for _, uc := range callsIn(fn) {
+						for _, uc := range w.callsInDeep(fn) {
 							if _, isDefer := uc.(*ssa.Defer); isDefer {
 								continue
 							}
-							if strings.HasSuffix(calleeName(uc), "sync.Locker).Unlock") && InstrDominates(li, uc) && InstrDominates(uc, call) {
+							if strings.HasSuffix(calleeName(uc), "sync.Locker).Unlock") && uc.Parent() == call.Parent() && InstrDominates(li, uc) && InstrDominates(uc, call) {
 								released = true
 							}
 						}
